@@ -1,6 +1,7 @@
 """python3 tools/seed_store.py ID PROP OUTDIR 'summary' 'needs' 'check' 'first run' 'now': copy a confirmed seeded change into seeded/ID/"""
 import sys, os, json, shutil
 sid, prop, out, summary, needs, check, first, now = sys.argv[1:9]
+rnd = sys.argv[9] if len(sys.argv) > 9 else "6"
 d = '/verif/seeded/' + sid
 os.makedirs(d, exist_ok=True)
 shutil.copy(os.path.join(out, 'patch.diff'), d + '/patch.diff')
@@ -8,7 +9,7 @@ if os.path.isdir(d + '/demo'): shutil.rmtree(d + '/demo')
 shutil.copytree(os.path.join(out, 'demo'), d + '/demo')
 json.dump({'id': sid, 'property': prop, 'summary': summary, 'needs_to_manifest': needs,
            'detected_by': {'check': check, 'first_run': first, 'result': now},
-           'source': 'independent sub-agent (round 6) given only the property text and a scratch worktree',
+           'source': 'independent sub-agent (round %s) given only the property text and a scratch worktree' % rnd,
            'confirmed': {'test_suite_with_change': 'cargo test --workspace --no-fail-fast --offline: all passed (tools/seed_confirm.sh)',
                          'demo_with_change': 'demo/demo.sh exits 1', 'demo_without_change': 'demo/demo.sh exits 0 (REDO_BIN=/repo/target/debug/redo)'}},
           open(d + '/meta.json', 'w'), indent=1)
